@@ -532,6 +532,22 @@ def extract_linear_coefficient(expr: Expression, var: Variable) -> float:
     return _extract_coefficient_impl(expr, var)
 
 
+def _constant_value(expr: Expression) -> float | None:
+    """Value of a variable-free (degree 0) sub-expression such as Constant(2) + 3, else None."""
+    if isinstance(expr, Constant):
+        value = expr.value
+        if isinstance(value, np.ndarray) and value.ndim > 0:
+            return None
+        return float(value)
+    if (
+        isinstance(expr, (BinaryOp, UnaryOp))
+        and compute_degree(expr) == 0
+        and not expr.get_variables()
+    ):
+        return float(expr.evaluate({}))
+    return None
+
+
 def _extract_coefficient_impl(expr: Expression, var: Variable) -> float:
     """Recursive coefficient extraction."""
     from optyx.core.vectors import LinearCombination, VectorSum
@@ -591,8 +607,14 @@ def _extract_coefficient_impl(expr: Expression, var: Variable) -> float:
                 return _extract_coefficient_impl(expr.left, var) * float(
                     expr.right.value
                 )
-            # For linear expressions, at least one side must be constant
-            # This fallback handles edge cases where constants are nested
+            # For linear expressions, at least one side must be constant-valued
+            # (e.g. (Constant(2) + 3) * x)
+            left_const = _constant_value(expr.left)
+            if left_const is not None:
+                return left_const * _extract_coefficient_impl(expr.right, var)
+            right_const = _constant_value(expr.right)
+            if right_const is not None:
+                return _extract_coefficient_impl(expr.left, var) * right_const
             return 0.0
 
         if expr.op == "/":
@@ -660,9 +682,19 @@ def _extract_constant_impl(expr: Expression) -> float:
     if isinstance(expr, Variable):
         return 0.0
 
-    # Vector expressions have no constant term (purely linear)
-    if isinstance(expr, (LinearCombination, VectorSum)):
+    # Sums / combinations of plain variables have no constant term
+    if isinstance(expr, VectorSum):
         return 0.0
+    if isinstance(expr, LinearCombination):
+        if hasattr(expr.vector, "_variables"):
+            return 0.0
+        # c @ (x + 1): the elements' constants are weighted by the coefficients
+        return float(
+            sum(
+                float(expr.coefficients[i]) * _extract_constant_impl(elem)
+                for i, elem in enumerate(expr.vector._expressions)
+            )
+        )
 
     if isinstance(expr, BinaryOp):
         if expr.op == "+":
@@ -681,6 +713,12 @@ def _extract_constant_impl(expr: Expression) -> float:
                 return float(expr.left.value) * _extract_constant_impl(expr.right)
             if isinstance(expr.right, Constant):
                 return _extract_constant_impl(expr.left) * float(expr.right.value)
+            left_const = _constant_value(expr.left)
+            if left_const is not None:
+                return left_const * _extract_constant_impl(expr.right)
+            right_const = _constant_value(expr.right)
+            if right_const is not None:
+                return _extract_constant_impl(expr.left) * right_const
             return 0.0
 
         if expr.op == "/":
@@ -693,6 +731,11 @@ def _extract_constant_impl(expr: Expression) -> float:
                 exp = int(expr.right.value)
                 if exp == 0:
                     return 1.0  # x**0 = 1
+                if exp == 1:
+                    return _extract_constant_impl(expr.left)  # e**1 = e
+                const_value = _constant_value(expr)  # e.g. Constant(2) ** 3
+                if const_value is not None:
+                    return const_value
             return 0.0
 
     if isinstance(expr, UnaryOp):
@@ -931,7 +974,18 @@ def _extract_all_coefficients_impl(
                     expr.left, var_index, result, multiplier * float(expr.right.value)
                 )
                 return
-            # Both sides non-constant - no linear contribution
+            # Constant-valued sub-expression on one side, e.g. (Constant(2) + 3) * x
+            left_const = _constant_value(expr.left)
+            if left_const is not None:
+                _extract_all_coefficients_impl(
+                    expr.right, var_index, result, multiplier * left_const
+                )
+                return
+            right_const = _constant_value(expr.right)
+            if right_const is not None:
+                _extract_all_coefficients_impl(
+                    expr.left, var_index, result, multiplier * right_const
+                )
             return
 
         if expr.op == "/":
